@@ -333,8 +333,8 @@ def r18_2(ctx, repo):
     cols = {}
     for a in ast.walk(fn2):
         if isinstance(a, ast.Assign) and isinstance(
-                a.targets[0], ast.Subscript) and U(
-                a.targets[0].value) == 'run_result' and isinstance(
+                a.targets[0], ast.Subscript) and isinstance(
+                a.targets[0].value, ast.Name) and isinstance(
                 a.targets[0].slice, ast.Constant):
             cols[a.targets[0].slice.value] = (U(a.value), a)
     want = {'Parameter': 'self._log_posterior.get_parameter_names()',
